@@ -243,7 +243,9 @@ def gen_arb(rng, min_prov=0, allow_big=True):
             rs["metadata"] = jbytes(rng)
         if rs["data"] or rs["url"] or rs["metadata"] or rs["metadata_schema"]:
             m.refseq = rs
-    idx = rng.choice(["none", "build", "build", "arbitrary"])
+    # "ties": a VALID index that is not the one build_index() makes - edges that tie on the sort key of the insertion /
+    # removal order are listed in another order (files written by other tools, or by hand through `indexes`)
+    idx = rng.choice(["none", "build", "build", "arbitrary", "ties", "ties"])
     return m, {"wide": wide, "index": idx, "bseed": rng.getrandbits(32)}
 
 
@@ -320,6 +322,36 @@ def build_tc(m, opts):
     if opts["index"] == "build":
         try:
             tc.build_index()
+        except tskit.LibraryError:
+            pass
+    elif opts["index"] == "ties":
+        try:
+            tc.build_index()
+            trng = random.Random(opts["bseed"] ^ 0x71E5)
+            t = tc.edges
+            ptime = tc.nodes.time[t.parent] if t.num_rows else np.zeros(0)
+            new = []
+            for order, coord in ((tc.indexes.edge_insertion_order, t.left), (tc.indexes.edge_removal_order, t.right)):
+                out, group, key = [], [], None
+                for e in [int(x) for x in order]:
+                    k = (float(coord[e]), float(ptime[e]))
+                    if k != key and group:
+                        trng.shuffle(group)
+                        out += group
+                        group = []
+                    key = k
+                    group.append(e)
+                trng.shuffle(group)
+                out += group
+                new.append(np.array(out, dtype=np.int32))
+            built = (tc.indexes.edge_insertion_order.copy(), tc.indexes.edge_removal_order.copy())
+            tc.indexes = tskit.TableCollectionIndexes(new[0], new[1])
+            try:
+                tc.tree_sequence()
+            except (tskit.LibraryError, ValueError):
+                if t.num_rows and (not np.array_equal(new[0], built[0]) or not np.array_equal(new[1], built[1])):
+                    # not every collection is a tree sequence; an index the library refuses is not kept for those that are
+                    tc.indexes = tskit.TableCollectionIndexes(built[0], built[1])
         except tskit.LibraryError:
             pass
     elif opts["index"] == "arbitrary":
@@ -586,6 +618,12 @@ class Obj:
             ctx.feature("ts-metadata")
         if self.opts["index"] == "arbitrary" and self.snap.has_index:
             ctx.feature("index:arbitrary")
+        if self.opts["index"] == "ties" and self.snap.has_index:
+            c = self.tc.copy()
+            c.build_index()
+            if not (np.array_equal(c.indexes.edge_insertion_order, self.tc.indexes.edge_insertion_order)
+                    and np.array_equal(c.indexes.edge_removal_order, self.tc.indexes.edge_removal_order)):
+                ctx.feature("index:valid-but-not-the-built-one" + (":tree-sequence" if self.valid else ""))
         check_build(ctx, self)
 
     @property
@@ -1249,7 +1287,10 @@ def run_interchange(case, ctx, rng, tmp):
         for bi in (False, True):
             ok, ts2 = guarded(ctx, "load_tables", tskit.TreeSequence.load_tables, tcx, build_indexes=bi)
             if ok:
-                same(ctx, "load_tables", ts2.dump_tables(), snapx)
+                # build_indexes=True is documented to rebuild the index: a valid index with another tie order is then
+                # legitimately replaced by the built one
+                rebuilt = bi and o.opts["index"] == "ties"
+                same(ctx, "load_tables", ts2.dump_tables(), snapx, drop=("/indexes",) if rebuilt else ())
         p = os.path.join(tmp, "ts.trees")
         ok, _ = guarded(ctx, "ts-dump", ts.dump, p)
         if ok:
@@ -1886,7 +1927,7 @@ def run_chain(case, ctx, rng, tmp):
             proto = rng.randrange(0, pickle.HIGHEST_PROTOCOL + 1)
             ok, new = guarded(ctx, what, lambda: pickle.loads(pickle.dumps(cur.tree_sequence(), proto)).dump_tables())
         else:   # load_tables
-            bi = rng.random() < 0.5
+            bi = rng.random() < 0.5 and o.opts["index"] != "ties"   # rebuilding replaces a valid index with other tie order
             ok, new = guarded(ctx, what, lambda: tskit.TreeSequence.load_tables(cur, build_indexes=bi).dump_tables())
         if not ok:
             return
